@@ -31,6 +31,7 @@ type c20Case struct {
 	Releases []c20Release  `json:"releases"`
 	Fault    *ghfake.Fault `json:"fault,omitempty"`
 	Name     string        `json:"name"`
+	Local    string        `json:"local,omitempty"` // a local fault while installing: rename | write-new | open-new (every such system call fails)
 }
 
 const c20ChecksumFile = "crs-toolchain-checksums.txt"
@@ -227,7 +228,23 @@ func c20Check(env *core.Env, cc core.Case) core.Verdict {
 	} else {
 		xenv = append(xenv, "GITHUB_ACTIONS=true")
 	}
-	r := sut.Run(sut.Cmd{Bin: exe, Args: []string{"self-update"}, Dir: sandbox, Env: xenv, Timeout: 60 * time.Second})
+	cmd := sut.Cmd{Bin: exe, Args: []string{"self-update"}, Dir: sandbox, Env: xenv, Timeout: 60 * time.Second}
+	injLog := filepath.Join(sandbox, "inject.log")
+	switch c.Local {
+	case "rename":
+		cmd.Strace, cmd.InjectCall, cmd.InjectErr = injLog, "rename,renameat,renameat2", "EACCES"
+	case "write-new":
+		cmd.Strace, cmd.InjectCall, cmd.InjectErr, cmd.InjectPath = injLog, "write", "ENOSPC", filepath.Join(filepath.Dir(exe), ".crs-toolchain.new")
+	case "open-new":
+		cmd.Strace, cmd.InjectCall, cmd.InjectErr, cmd.InjectPath = injLog, "openat", "EACCES", filepath.Join(filepath.Dir(exe), ".crs-toolchain.new")
+	}
+	r := sut.Run(cmd)
+	injected := 0
+	if c.Local != "" {
+		b, _ := os.ReadFile(injLog)
+		injected = strings.Count(string(b), "(INJECTED)")
+		_ = os.Remove(injLog)
+	}
 	log := srv.Log()
 	v := core.Verdict{Status: core.Held, Nontrivial: true, Features: []string{"running:" + c.Running, "scenario:" + c.Name}, Counts: map[string]int{"requests_served": len(log)}}
 	describeLog := func() string {
@@ -301,6 +318,28 @@ func c20Check(env *core.Env, cc core.Case) core.Verdict {
 			outcome = "install"
 		} else {
 			outcome, why = "fail", "transient fault"
+		}
+	}
+	if c.Local != "" {
+		// a local fault while the new executable is put in place: whatever happens, the executable is either the old
+		// one or the complete verified payload, and status 0 means it is the payload
+		v.Features = append(v.Features, fmt.Sprintf("local-fault:%s injected=%v", c.Local, injected > 0))
+		v.Counts["injected_calls"] = injected
+		if injected == 0 {
+			v.Nontrivial = false
+		}
+		if outcome == "install" && injected > 0 {
+			want := c.Releases[idx].payload()
+			if changed && string(now) != string(want) {
+				return core.Viol("half-installed", "with every %s call failing the executable is neither the old one nor the release's payload (%d bytes, exit %d)\n%s", c.Local, len(now), r.Exit, ctx())
+			}
+			if !changed && r.Exit == 0 {
+				return core.Viol("failure-not-reported:local-"+c.Local, "with every %s call failing the executable is unchanged but the exit status is 0\n%s", c.Local, ctx())
+			}
+			if info, err := os.Stat(exe); err != nil || info.Mode()&0o111 == 0 {
+				return core.Viol("not-executable", "after a failed installation the executable is gone or not executable\n%s", ctx())
+			}
+			return v
 		}
 	}
 	switch outcome {
@@ -405,6 +444,14 @@ func c20Cases(env *core.Env, rng *rand.Rand) []core.Case {
 			}
 		}
 	}
+	// local faults while the new executable is put in place
+	for _, s := range byName("newer-verified", "newer-linux-only", "unordered-catalogue") {
+		for _, local := range []string{"rename", "write-new", "open-new"} {
+			for _, run := range runnings[:3] {
+				cs = append(cs, &c20Case{Running: run, Releases: s.rels, Name: s.name + "+local-" + local, Local: local})
+			}
+		}
+	}
 	// random catalogues
 	n := env.N(200, 2000)
 	tags := []string{"v1.0.0", "v1.9.9", "v2.0.0", "v2.0.1", "v2.1.0", "v3.1.4", "v9.9.9", "v10.0.0", "nightly", "v2.2.0-rc1", "2.3.0", "v0.9.0"}
@@ -433,7 +480,7 @@ func init() {
 	register(&core.Property{
 		ID:    "C20",
 		Level: "fault_enumeration",
-		Rule: "the built CLI (variants with main.version = v2.0.0, v0.0.0-dev, empty -> 'dev', v2.1.0-rc.1 and v3.0.0-beta.2), copied into a sandbox, runs `self-update` against a fake of the GitHub release API (TLS-intercepting CONNECT proxy, selected only through HTTPS_PROXY / SSL_CERT_FILE). Enumerated: 32 catalogues (newer verified release, checksum mismatching / for another file / empty / missing, corrupt archive, archive without the binary, other platforms only, another architecture of the same OS only / listed first, no assets, empty catalogue, draft, pre-release, older, equal, equal but tampered, non-semver tag, rc tag newer / older than / of the running version, newest release unusable with an older usable one behind it, unordered catalogues) x 5 running versions, and for four flows one HTTP fault (500, 404, 403, 403 with the rate-limit headers of the API, truncated body, connection reset, empty 200) at each request index 1..4 x 2 running versions; plus PRNG catalogues of 0..6 releases with random attributes and faults. " +
+		Rule: "the built CLI (variants with main.version = v2.0.0, v0.0.0-dev, empty -> 'dev', v2.1.0-rc.1 and v3.0.0-beta.2), copied into a sandbox, runs `self-update` against a fake of the GitHub release API (TLS-intercepting CONNECT proxy, selected only through HTTPS_PROXY / SSL_CERT_FILE). Enumerated: 32 catalogues (newer verified release, checksum mismatching / for another file / empty / missing, corrupt archive, archive without the binary, other platforms only, another architecture of the same OS only / listed first, no assets, empty catalogue, draft, pre-release, older, equal, equal but tampered, non-semver tag, rc tag newer / older than / of the running version, newest release unusable with an older usable one behind it, unordered catalogues) x 5 running versions, and for four flows one HTTP fault (500, 404, 403, 403 with the rate-limit headers of the API, truncated body, connection reset, empty 200) at each request index 1..4 x 2 running versions; plus, for three installing flows x 3 running versions, a local fault while the new executable is put in place (every rename fails; every write to, or the creation of, the temporary file next to the executable fails; injected with strace): the executable must be the old one or the complete verified payload, and status 0 only with the payload; plus PRNG catalogues of 0..6 releases with random attributes and faults. " +
 			"Oracle: a model of the statement decides install / fail / nothing-to-do; install: exit 0 and the executable equals the payload of the best release's linux_amd64 asset and is executable; fail: sha256 unchanged and exit != 0; nothing-to-do: unchanged. Trace property over the fake's request log: the executable changes only if the asset and the checksum file of the same release were both served completely. No file is left next to the executable; no runtime fault or panic. Non-trivial = every scenario.",
 		Cases:         c20Cases,
 		Check:         c20Check,
